@@ -954,8 +954,19 @@ func (c *Conn) handleData(arg string) {
 	r := newDataReader(c)
 	code, enhancedCode, msg := dataErrorToStatus(c.Session().Data(r))
 	r.limited = false
-	io.Copy(ioutil.Discard, r) // Make sure all the data has been consumed
+	_, err := io.Copy(ioutil.Discard, r) // Make sure all the data has been consumed
 	c.writeResponse(code, enhancedCode, msg)
+	if err != nil {
+		c.abandon()
+	}
+}
+
+// abandon ends the transaction and the connection after a message could not
+// be read to its end (read timeout, connection lost): whatever arrives next
+// may be the rest of that message and must not be executed as commands.
+func (c *Conn) abandon() {
+	c.reset()
+	c.Close()
 }
 
 func (c *Conn) handleBdat(arg string) {
@@ -975,7 +986,11 @@ func (c *Conn) handleBdat(arg string) {
 		if sizeErr != nil {
 			return
 		}
-		io.Copy(ioutil.Discard, io.LimitReader(c.text.R, int64(size)))
+		n, _ := io.Copy(ioutil.Discard, io.LimitReader(c.text.R, int64(size)))
+		if n < int64(size) {
+			// The rest of the chunk never arrived.
+			c.Close()
+		}
 	}
 
 	if len(args) > 2 {
@@ -1069,7 +1084,7 @@ func (c *Conn) handleBdat(arg string) {
 		verifGate(c, "bdat-spawned")
 	}
 
-	chunk := io.LimitReader(c.text.R, int64(size))
+	chunk := &io.LimitedReader{R: c.text.R, N: int64(size)}
 	n, err := io.Copy(bdatPipe, chunk)
 	if err == nil && n < int64(size) {
 		// The connection was lost inside the chunk, so the message is
@@ -1099,6 +1114,10 @@ func (c *Conn) handleBdat(arg string) {
 		}
 
 		c.reset()
+		if chunk.N > 0 {
+			// The rest of the chunk never arrived.
+			c.Close()
+		}
 		return
 	}
 
@@ -1218,13 +1237,14 @@ func (c *Conn) handleDataLMTP() {
 	status := c.createStatusCollector()
 
 	done := make(chan bool, 1)
+	var drainErr error // set before done is sent to
 
 	lmtpSession, ok := c.Session().(LMTPSession)
 	if !ok {
 		// Fallback to using a single status for all recipients.
 		err := c.Session().Data(r)
 		r.limited = false
-		io.Copy(ioutil.Discard, r) // Make sure all the data has been consumed
+		_, drainErr = io.Copy(ioutil.Discard, r) // Make sure all the data has been consumed
 		for _, rcpt := range c.recipients {
 			status.SetStatus(rcpt, err)
 		}
@@ -1247,7 +1267,7 @@ func (c *Conn) handleDataLMTP() {
 
 			status.fillRemaining(lmtpSession.LMTPData(r, status))
 			r.limited = false
-			io.Copy(ioutil.Discard, r) // Make sure all the data has been consumed
+			_, drainErr = io.Copy(ioutil.Discard, r) // Make sure all the data has been consumed
 			done <- true
 		}()
 	}
@@ -1261,6 +1281,8 @@ func (c *Conn) handleDataLMTP() {
 	// should be closed.
 	if !<-done {
 		c.Close()
+	} else if drainErr != nil {
+		c.abandon()
 	}
 }
 
